@@ -20,4 +20,9 @@ def run(ck):
     flags.reset_rule(ck, "C18.R2")
     carriers.object_chain_float_free(ck, "C18.R3", "C18.R4")
     carriers.wrap_rule(ck, "C03.R1", "C03.R3")
+    from . import strings
+    strings.decode_terms(ck, "C11.R4")
+    strings.parse_dispatch(ck, "C11.R5")
+    roles = flags.handler_roles_quiet(ck.prog)
+    pipeline.overflow_dispatch(ck, "C02.R6", "C03.R2", roles)
     pipeline.store_pipeline(ck, "C01.R2", want_bounds=True)
